@@ -41,10 +41,12 @@ KEYS = {
         "F9(h): process_signals(return_after) ends in MainLoop when its loop is told to stop (close_loop / ExitMainLoop), in GLibEventLoop only when the signal arrives or on force_quit",
     "glib-handlers-bound-at-enqueue":
         "F9(i): GLibEventLoop binds the handler list when the signal is enqueued: a handler registered later for a class that had none then is not invoked (and an ExceptionSignal keeps the kill handler); MainLoop looks the handlers up at dispatch",
+    "main-newloop-after-close":
+        "F13 seen from C20: execute_new_loop() called after close_loop() in the same handler returns at once in MainLoop (stale _run_loop=False); GLibEventLoop runs the new loop",
     "glib-close-last-level":
         "F9(j): close_loop() with no nested level open: MainLoop raises ExitMainLoop, GLibEventLoop pops its only level (later calls fail with IndexError / ValueError)",
-    "glib-batch-after-close":
-        "F9(d'): after close_loop() the rest of the closed level's current dispatch batch is still dispatched by GLibEventLoop; MainLoop stops that level after the current signal",
+    "glib-wait-finishes-batch":
+        "F9(h'): process_signals(return_after) returns in MainLoop right after the dispatch of the awaited signal, in GLibEventLoop only after the whole dispatch batch containing it",
 }
 
 _KEEP = {DISPATCH, HANDLER, HEND, MARK, SIGNEW, ENQ, DROPPED, NLENTER, NLRETURN, CLOSEPOP, FORCEQUIT, QUITCB, RUNENTER,
@@ -96,6 +98,8 @@ class _Hist(object):
         self.levels = [0]            # GLib's view (force_quit does not forget them)
         self.emptied = False
         self.fq = False              # force_quit in effect
+        self.fq_ever = False         # MainLoop.force_quit forgot the levels for good (run() does not restore them)
+        self.waits = {}              # (cls, ticket) -> position of the EProcEnter of a wait
         self.prio = {}
         self.cls = {}
         self.enq_at = {}             # sid -> position of its enqueue
@@ -123,7 +127,9 @@ class _Hist(object):
                 if not self.levels:
                     self.emptied = True
             elif k == FORCEQUIT:
-                self.fq = True
+                self.fq = True; self.fq_ever = True
+            elif k == PENTER:
+                self.waits[(e[1][0], e[2])] = pos
             elif k == RUNENTER:
                 self.fq = False
             if k in (HANDLER, HEND):
@@ -192,6 +198,12 @@ def classify(case, main, glib):
         if kg == DISPATCH:
             return ret("glib-exit-batch-continues")
         return ret("glib-exit-not-unwinding")
+    # -- F13: MainLoop's new loop returns before dispatching anything
+    if km == NLRETURN:
+        opened = [p for p, (e, _) in enumerate(nm[:k]) if e[0] == NLENTER and e[1] == em[1]]
+        if opened and not any(e[0] == DISPATCH for e, _ in nm[opened[-1]:k]) and \
+                any(e[0] == CLOSEPOP for e, _ in nm[:opened[-1]]):
+            return ret("main-newloop-after-close")
     # -- handlers bound at enqueue time
     if km == HANDLER and em[2] in h.enq_at and h.cls.get(em[2]) in h.reg_at \
             and h.reg_at[h.cls[em[2]]] > h.enq_at[em[2]] and not (kg == HANDLER and eg[2] == em[2]):
@@ -200,7 +212,9 @@ def classify(case, main, glib):
         return ret("glib-handlers-bound-at-enqueue")
     # -- a wait that MainLoop ends because its loop was told to stop
     if km == PRETURN and kg != PRETURN:
-        return ret("glib-wait-not-stopped")
+        start = h.waits.get((em[1][0], em[2]), 0)
+        released = any(e[0] == DISPATCH and h.cls.get(e[1]) == em[1][0] for e, _ in nm[start:k])
+        return ret("glib-wait-finishes-batch" if released else "glib-wait-not-stopped")
     # -- both dispatch, but different signals
     if km == DISPATCH and kg == DISPATCH:
         x, y = em[1], eg[1]
@@ -214,4 +228,6 @@ def classify(case, main, glib):
         return ret("glib-process-one-batch")
     if kg == DISPATCH and plain_g > plain_m:
         return ret("glib-process-one-batch")
+    if h.fq_ever:
+        return ret("glib-after-force-quit")
     return None, desc
